@@ -204,6 +204,78 @@ fn run_cross_server(cx: &mut CaseCx, _case: &Value) {
   cx.outcome("cross-server");
 }
 
+
+/// the output for (server, tag, input) does not depend on punctures of OTHER tags in the key's history
+fn run_puncture_stability(cx: &mut CaseCx, case: &Value) {
+  let tags: Vec<u8> = vec![0, 1, 2, 6, 7, 64, 128, 192, 255];
+  cx.entropy(900 + case["order"].as_u64().unwrap());
+  let mut server = pp::Server::new(tags.clone()).expect("server");
+  let input = b"stable input".to_vec();
+  let mut base: HashMap<u8, [u8; 32]> = HashMap::new();
+  for &t in &tags {
+    if let Ok((_, _, fin)) = exchange(&server, t, &input, &Blind::Fresh(0), false) {
+      base.insert(t, fin);
+    }
+  }
+  // puncture orders: ascending, descending, and rotations of the tag list
+  let mut order = tags.clone();
+  match case["order"].as_u64().unwrap() {
+    0 => {}
+    1 => order.reverse(),
+    k => order.rotate_left(k as usize % tags.len()),
+  }
+  let mut punctured: Vec<u8> = vec![];
+  for &p in &order {
+    if server.puncture(p).is_err() {
+      cx.viol("C12/puncture-failed", format!("puncture({}) failed", p), json!({"punctured_in_order": punctured}));
+      return;
+    }
+    punctured.push(p);
+    for &t in &tags {
+      if punctured.contains(&t) {
+        continue;
+      }
+      for verifiable in [false, true] {
+        cx.eval();
+        cx.nontrivial(fnv_str(&format!("{:?}|{}|{}", punctured, t, verifiable)));
+        match exchange(&server, t, &input, &Blind::Fresh(1), verifiable) {
+          Ok((_, _, fin)) => {
+            if Some(&fin) != base.get(&t) {
+              cx.viol("C12/output-depends-on-puncture-history", format!("the output for tag {} changed after puncturing other tags {:?}", t, punctured), json!({"tag": t, "punctured_in_order": punctured, "verifiable": verifiable}));
+              return;
+            }
+            cx.count("stable_outputs", 1);
+          }
+          Err(e) => {
+            cx.viol("C12/exchange-failed", format!("exchange for the unpunctured tag {} failed after puncturing {:?}: {}", t, punctured, e), json!({"tag": t, "punctured_in_order": punctured, "verifiable": verifiable}));
+            return;
+          }
+        }
+      }
+    }
+  }
+  cx.outcome("stable across punctures");
+}
+
+/// unbounded repetitions (bounded here: 300) of one request on one thread stay fresh
+fn run_freshness(cx: &mut CaseCx, _case: &Value) {
+  cx.entropy(950);
+  let mut seen: HashMap<[u8; 32], usize> = HashMap::new();
+  let inputs = [b"repeated input".to_vec(), prbytes(5, 40)];
+  for n in 0..300usize {
+    let input = &inputs[n % 2];
+    cx.eval();
+    cx.nontrivial(n as u64);
+    let (blinded, _r) = pp::Client::blind(input);
+    if let Some(prev) = seen.insert(*blinded.as_bytes(), n) {
+      cx.viol("C12/blinding-not-fresh", format!("request {} carries exactly the blinded point of request {} (fresh entropy for every request): requests are linkable", n, prev), json!({"request": n, "same_as_request": prev}));
+      return;
+    }
+  }
+  cx.count("fresh_requests", seen.len() as u64);
+  cx.outcome("300 requests fresh");
+}
+
 pub fn spec() -> PropSpec {
   PropSpec {
     id: "C12",
@@ -230,6 +302,14 @@ pub fn spec() -> PropSpec {
         run: run_server,
         min_counts: &[("evaluations", 1000), ("formula_checks", 50), ("distinct_outputs", 50)],
       },
+      Check {
+        name: "puncture-history",
+        rule: "server with tags {0,1,2,6,7,64,128,192,255}: all tags punctured one by one in 6 orders; after every puncture every remaining tag still finalises to its original output, verifiable and not",
+        gen: |_| (0..6u64).map(|o| json!({"order": o})).collect(),
+        run: run_puncture_stability,
+        min_counts: &[("stable_outputs", 200)],
+      },
+      Check { name: "repeated-requests", rule: "300 consecutive requests for two alternating inputs on one thread under fresh entropy: all blinded points pairwise distinct", gen: |_| vec![json!({})], run: run_freshness, min_counts: &[("fresh_requests", 300)] },
       Check { name: "cross-server", rule: "4 independently keyed servers x 2 tags x 6 inputs: all finalised outputs distinct", gen: |_| vec![json!({})], run: run_cross_server, min_counts: &[("distinct_outputs", 40)] },
     ],
   }
